@@ -224,36 +224,47 @@ inductive TokRes where
   | silent
   deriving Repr
 
+/-- `'0x' xdigit+` can only start at an unsigned `0`. -/
+def hexPartLen (s : Nat) (body : Bytes) : Nat :=
+  if s = 0 then
+    match body with
+    | 48 :: 120 :: r => hexLen r
+    | _ => 0
+  else 0
+
+/-- `('.' digit*)?` -/
+def fracLenOf (r1 : Bytes) : Nat :=
+  match r1 with
+  | 46 :: r => 1 + digitsLen r
+  | _ => 0
+
+/-- `([Ee] integer)?` -/
+def expLenOf (r2 : Bytes) : Nat :=
+  match r2 with
+  | e :: r =>
+    if e = 101 || e = 69 then
+      let sg := match r with
+        | c :: _ => if c = 43 || c = 45 then 1 else 0
+        | [] => 0
+      let dd := digitsLen (r.drop sg)
+      if dd = 0 then 0 else 1 + sg + dd
+    else 0
+  | [] => 0
+
 /-- `integer | hex_integer | double` at `sign? digit…`; `s` = 1 if there is a sign. -/
 def numberRes (inp : Bytes) (s : Nat) : TokRes :=
   let body := inp.drop s
   let d := digitsLen body
   let intLen := s + d
-  let hexX := if s = 0 then
-      (match body with
-       | 48 :: 120 :: r => hexLen r
-       | _ => 0) else 0
+  let hexX := hexPartLen s body
   if hexX > 0 then
     let n := 2 + hexX
     match lexInt (inp.take n) with
     | some v => .tok (.int v) n n
     | none => .lexErr n n
   else
-    let r1 := body.drop d
-    let fracLen := match r1 with
-      | 46 :: r => 1 + digitsLen r
-      | _ => 0
-    let r2 := r1.drop fracLen
-    let expLen := match r2 with
-      | e :: r =>
-        if e = 101 || e = 69 then
-          let sg := match r with
-            | c :: _ => if c = 43 || c = 45 then 1 else 0
-            | [] => 0
-          let dd := digitsLen (r.drop sg)
-          if dd = 0 then 0 else 1 + sg + dd
-        else 0
-      | [] => 0
+    let fracLen := fracLenOf (body.drop d)
+    let expLen := expLenOf ((body.drop d).drop fracLen)
     if fracLen + expLen = 0 then
       match lexInt (inp.take intLen) with
       | some v => .tok (.int v) intLen intLen
